@@ -303,7 +303,11 @@ class C10(Oracle):
     prop = "C10"
 
     def start(self, run, rp):
-        self.fleet_world = bool(run.spec.get("fleets"))
+        # restricted entities exist with a fleets file, and also without one: a human driver's home base is made private to them
+        self.fleet_world = bool(run.spec.get("fleets")) or any(
+            e.membership.memberships for coll in (rp.s.stations, rp.s.bases, rp.s.requests) for e in coll.values())
+        if not run.spec.get("fleets") and self.fleet_world:
+            run.probes["private_home_base_without_fleets_file"] += 1
         self.pairs = 0
         return c10_state_check(rp.s, -1)
 
